@@ -108,8 +108,9 @@ def run(tier):
                 rows.append({"entry": e, "family": f, "ks": lad, "bytes": [r["info"]["bytes"] for r in rs], "work": w, "exponent": round(ex, 3), "status": rs[2]["info"]["status"]})
                 if ex > EXP_LIMIT:
                     top = hot(rs)
-                    flagged.setdefault((top[0][0],), {"entry": e, "family": f, "ks": lad, "work": w, "exponent": round(ex, 3), "hot_functions": top,
-                                                       "what": "super-linear growth", "also": []})["also"].append("%s/%s" % (e, f)) if (top[0][0],) in flagged else None
+                    fl = flagged.setdefault((top[0][0],), {"entry": e, "family": f, "ks": lad, "work": w, "exponent": round(ex, 3), "hot_functions": top,
+                                                          "what": "super-linear growth", "also": []})
+                    fl["also"].append("%s/%s" % (e, f))
     # exponential family: UNION chains (work per added UNION must not keep doubling)
     uk = (6, 10, 14) if tier == "quick" else (6, 10, 14, 18)
     ures = cm.measure_many([(e, "union_chain", k) for e in ENTRIES for k in uk], timeout=240)
